@@ -43,14 +43,14 @@ Definition tf_api : tagfns :=
 Definition cfg_api : cfg :=
   mkCfg Z.mul Z.div None (fun k => negb (k =? 9)) (fun k => (k =? 0) || (k =? 5) || (k =? 6))
         (fun k => if k =? 6 then Some 2 else None)
-        (fun a b => b mod 100 =? (a / 100) mod 100 + 2) (fun t => t mod 100 =? (t / 10000) mod 10000 + 1).
+        (fun a b => b mod 100 =? (a / 100) mod 100 + 2) (fun t => t mod 100 =? (t / 10000) mod 10000 + 1) (fun ks => ks).
 Definition cfg_sum : cfg :=
   mkCfg Z.mul Z.div None (fun k => negb (k =? 9)) (fun k => (k =? 0) || (k =? 5) || (k =? 6))
         (fun k => if k =? 6 then Some 2 else None)
-        (fun a b => b mod 1000 =? a / 1000 + 1) (fun t => t mod 1000 =? 0).
+        (fun a b => b mod 1000 =? a / 1000 + 1) (fun t => t mod 1000 =? 0) (fun ks => ks).
 Definition cfg_log : cfg :=
   mkCfg Z.mul Z.div (Some (fun z => z)) (fun _ => true) (fun _ => false) (fun _ => None)
-        (fun _ _ => true) (fun _ => true).
+        (fun _ _ => true) (fun _ => true) (fun ks => ks).
 """
 
 
@@ -221,6 +221,13 @@ def lst(xs):
     return "[" + "; ".join(xs) + "]"
 
 
+def set_order_cfg(base, cell):
+    """`for field in set(cells[0].values.keys())`: the iteration order of that set is hash order -- an oracle of
+    the model; it is observed here by building the set exactly as the code does."""
+    order = [KEYS[k] for k in set(cell.values.keys())]
+    return f"(with_set_order {base} {lst([str(k) for k in order])})"
+
+
 def build_case(kernel: str, seed: int):
     """Returns dict(args=[python objects to fingerprint], thunk, coq=callable(H)->call term, cfg, exact,
     tag=tag function, roots=[objects to lay out], post=callable(result)->(kind, python result))."""
@@ -315,7 +322,9 @@ def build_case(kernel: str, seed: int):
         b = a if r.random() < 0.15 else g.values_dict(fs if r.random() < 0.85 else fs[:-1] + ["incurred_loss"], p_none=0.05)
         fn = B._values_add if kernel == "values_add" else B._values_diff
         nm = "KValuesAdd" if kernel == "values_add" else "KValuesDiff"
-        c.update(roots=[a, b], thunk=lambda: fn(a, b), coq=lambda H: f"{nm} {H.val(a)} {H.val(b)}")
+        ordered = "[" + "; ".join(str(KEYS[k_]) for k_ in set(a.keys())) + "]"     # `for k in curr_keys` (a set)
+        c.update(roots=[a, b], thunk=lambda: fn(a, b), coq=lambda H: f"{nm} {H.val(a)} {H.val(b)}",
+                 cfg=f"(with_set_order cfg_sum {ordered})")
     elif kernel in ("to_cumulative", "to_incremental"):
         k = r.randint(1, 4)
         fs = r.sample(["earned_premium", "paid_loss", "reported_loss"], r.randint(1, 3))
@@ -406,7 +415,7 @@ def build_case(kernel: str, seed: int):
                 pk = [int(x) for x in real_choice(range(k), g.n + 1, p=w)]
             return f"KBlendCells {lst([H.val(x) for x in cells])} {lst([f'{i}%nat' for i in pk])}"
 
-        c.update(roots=cells, thunk=thunk, coq=coq)
+        c.update(roots=cells, thunk=thunk, coq=coq, cfg=set_order_cfg("cfg_sum", cells[0]))
     elif kernel == "blend_cells_linear":
         k = r.randint(1, 3)
         fs = r.sample(["earned_premium", "paid_loss", "reported_loss"], r.randint(1, 2))
@@ -422,7 +431,8 @@ def build_case(kernel: str, seed: int):
                 vals["incurred_loss"] = 1
             cells.append(g.cell(vals))
         w = [r.choice([0.25, 0.5, 0.75]) for _ in range(k if r.random() < 0.92 else k + 1)]
-        c.update(roots=cells, exact=False, thunk=lambda: S.blend_cells(cells, w, "linear", None),
+        c.update(roots=cells, exact=False, cfg=set_order_cfg("cfg_sum", cells[0]),
+                 thunk=lambda: S.blend_cells(cells, w, "linear", None),
                  coq=lambda H: f"KBlendCellsLinear {lst([H.val(x) for x in cells])} {lst([z(int(x * 1024)) for x in w])}")
     else:
         raise KeyError(kernel)
@@ -703,7 +713,7 @@ def build_api_case(entry, seed):
             tl = "[" + "; ".join(cl(H, t_) for t_ in tris) + "]"
             return f"ABlend {tl} {lst([f'{i}%nat' for i in pk])}"
 
-        c.update(tris=tris, thunk=thunk, coq=coq)
+        c.update(tris=tris, thunk=thunk, coq=coq, cfg=set_order_cfg("cfg_api", tris[0].cells[0]))
     elif entry in ("select", "derive_fields", "replace"):
         t = api_triangle(g, r, ms, periods, nl, r.random() < 0.3, fields, p_none=0.05)
         if entry == "select":
